@@ -264,7 +264,6 @@ package lnwallet
 //@
 //@ func DeriveCommitmentKeys
 //@   props C04
-//@   requires localChanCfg != nil && remoteChanCfg != nil
 //@   let isLocal = whoseCommit == lntypes.Local
 //@   site call TweakPubKey nth 0: assert arg(0) == localChanCfg.HtlcBasePoint.PubKey && arg(1) == commitPoint
 //@   site call TweakPubKey nth 1: assert arg(0) == remoteChanCfg.HtlcBasePoint.PubKey && arg(1) == commitPoint
@@ -282,7 +281,6 @@ package lnwallet
 //@
 //@ func findOutputIndexesFromRemote
 //@   props C04
-//@   requires chanState != nil
 //@   loop * havoc
 //@   site call DeriveCommitmentKeys: assert arg(0) == retn(PrivKeyFromBytes, 1) && arg(1) == lntypes.Remote &&
 //@        arg(2) == old(chanState.ChanType) && arg(3) == addr(chanState.LocalChanCfg) && arg(4) == addr(chanState.RemoteChanCfg)
